@@ -237,6 +237,9 @@ func runKW[FE algebra.PrimeFieldElement[FE]](ctx *fieldCtx[FE], a vh.Args, cs ca
 	}
 	mspTok := fmt.Sprintf("%dx%d:%s:%s", rows, cols, idsText(labs), hexFEs(entries))
 	mspHolders := uniqSorted(labs)
+	if d := checkCanonical(ctx, a, cs, ac, mspTok); d != "" {
+		prop("cnf-induced-msp-not-canonical", d)
+	}
 
 	// dealing (two secrets) with the dealer's randomness read from the seeded stream
 	scheme, _ := kw.NewInducedScheme(m)
@@ -702,6 +705,6 @@ func main() {
 	res.Rule = "KW/MSP: every threshold, unanimity, antichain-CNF, hierarchical layout and gate tree (gates >= 2 children) on <= " +
 		fmt.Sprint(maxN) + " holders x ID assignments (ordinal, sparse unsorted <= 64, >= 2^40 incl. 2^64-1, CNF also 65..300; hierarchical also sorted) x all subsets + permuted/repeated/stranger ID lists, constructor refusals, " +
 		"(thorough: both fields everywhere, 5-6 holders: threshold/unanimity/hierarchical exhaustive, 400 sampled 5-holder CNFs, 550 sampled 5/6-leaf gate trees); random policies up to 12 holders (un-normalised CNF input, gate trees with repeated leaves / non-ideal MSPs); secrets 0,1,q-1,random; fields k256 Fq and BLS12-381 Fr; " +
-		"dedicated schemes Shamir/additive/ISN/Tassa on the same policy families. A case is non-trivial when the constructor accepts the policy."
+		"canonicity of cnf.InducedMSP under permuted clause lists and ConvertToCNF; dedicated schemes Shamir/additive/ISN/Tassa on the same policy families. A case is non-trivial when the constructor accepts the policy."
 	res.Write(a.Out)
 }
